@@ -919,11 +919,12 @@ func (p *context) compileInstrOrValue(b llssa.Builder, iv instrOrValue, asValue 
 		x := p.compileValue(b, v.X)
 		idx := p.compileValue(b, v.Index)
 		ret = b.Index(x, idx, func() (addr llssa.Expr, zero bool) {
-			switch n := v.X.(type) {
-			case *ssa.Const:
+			// Note: v.X is an array *value*. Even when it was loaded from memory
+			// (*ssa.UnOp) its elements must not be read through the original
+			// address: the variable may change between the load and this index,
+			// e.g. in the body of `for i, e := range arr { arr[2] = ... }`.
+			if _, ok := v.X.(*ssa.Const); ok {
 				zero = true
-			case *ssa.UnOp:
-				addr = p.compileValue(b, n.X)
 			}
 			return
 		})
